@@ -24,7 +24,7 @@ def evUnder (k : String) : Entry → Prop
 /-- `AppK k S S'`: the log and the outstanding list grew only by things under `k`. -/
 structure AppK (k : String) (S S' : Store) : Prop where
   log : ∃ l, S'.log = S.log ++ l ∧ ∀ e ∈ l, evUnder k e
-  out : ∃ o, S'.outstanding = S.outstanding ++ o ∧ ∀ p ∈ o, under k p = true
+  out : ∃ o, S'.outstanding = S.outstanding ++ o ∧ ∀ p ∈ o, under k p.2 = true
 
 theorem AppK.refl (k : String) (S : Store) : AppK k S S := ⟨⟨[], by simp⟩, ⟨[], by simp⟩⟩
 
@@ -130,7 +130,7 @@ theorem execField_appK (k : String) (nn : Bool) (mode : Mode) (rerr : Option Str
   all_goals first
     | exact ⟨AppK.push k S (.start itemPath) hu, by simp [futUnder]⟩
     | exact ⟨(AppK.push k S (.start itemPath) hu).trans (hc _).1, (hc _).2⟩
-    | (refine ⟨⟨⟨[.start itemPath], rfl, by simpa [evUnder] using hu⟩, ⟨[itemPath], rfl, by simpa using hu⟩⟩, ?_⟩
+    | (refine ⟨⟨⟨[.start itemPath], rfl, by simpa [evUnder] using hu⟩, ⟨[(S.nextId, itemPath)], rfl, by simpa using hu⟩⟩, ?_⟩
        simp [futUnder, futUnderO, hu])
     | (refine ⟨⟨⟨[.start itemPath, .fulfil itemPath], by simp [Store.push], by simpa [evUnder] using hu⟩,
          ⟨[], by simp [Store.push], by simp⟩⟩, ?_⟩
@@ -348,7 +348,7 @@ theorem poll_appK_aux (k : String) :
 /-- Every outstanding promise is one of the `pending` ones (abandoned by earlier root fields) or
     lies under `k`. -/
 def Good (k : String) (pending : List Path) (S : Store) : Prop :=
-  ∀ p ∈ S.outstanding, p ∈ pending ∨ under k p = true
+  ∀ p ∈ S.outstanding, p.2 ∈ pending ∨ under k p.2 = true
 
 theorem evOk_of_evUnder (k : String) (pending : List Path) (e : Entry) (h : evUnder k e) : evOk k pending e := by
   cases e <;> simp_all [evUnder, evOk]
@@ -362,7 +362,7 @@ theorem AppK.good {k : String} {pending : List Path} {S S' : Store} (h : AppK k 
   · exact hg p h1
   · exact Or.inr (hq p h1)
 
-theorem fulfilled_subset (ps : List Path) (bs : List Bool) : ∀ p ∈ fulfilled ps bs, p ∈ ps := by
+theorem fulfilled_subset {α : Type} (ps : List α) (bs : List Bool) : ∀ p ∈ fulfilled ps bs, p ∈ ps := by
   induction ps generalizing bs with
   | nil => simp [fulfilled]
   | cons q ps ih =>
@@ -376,7 +376,7 @@ theorem fulfilled_subset (ps : List Path) (bs : List Bool) : ∀ p ∈ fulfilled
         · exact h ▸ List.mem_cons_self
         · exact List.mem_cons_of_mem _ (ih bs p h)
 
-theorem kept_subset (ps : List Path) (bs : List Bool) : ∀ p ∈ kept ps bs, p ∈ ps := by
+theorem kept_subset {α : Type} (ps : List α) (bs : List Bool) : ∀ p ∈ kept ps bs, p ∈ ps := by
   induction ps generalizing bs with
   | nil => simp [kept]
   | cons q ps ih =>
@@ -456,6 +456,17 @@ theorem waitLoop_serial (k : String) (pending : List Path) (fuel : Nat) :
 
 theorem under_root_key (key : String) : under key [Seg.key key] = true := by simp [under]
 
+/-- The response paths of the promises still outstanding. -/
+def pendingOf (S : Store) : List Path := S.outstanding.map (·.2)
+
+theorem good_pending {k : String} {pending : List Path} {S : Store} (h : Good k pending S) :
+    ∀ p ∈ pendingOf S, p ∈ pending ∨ under k p = true := by
+  intro p hp
+  obtain ⟨q, hq, rfl⟩ := List.mem_map.mp hp
+  exact h q hq
+
+theorem pendingOf_push (S : Store) (e : Entry) : pendingOf (S.push e) = pendingOf S := rfl
+
 theorem not_root_of_evOk (k : String) (pending : List Path) (j : Nat) (key : String) (v : Val) :
     ¬ evOk k pending (.write [] j key v) := by simp [evOk, under]
 
@@ -463,7 +474,7 @@ theorem not_root_of_evOk (k : String) (pending : List Path) (j : Nat) (key : Str
     field, in document order, each block obeying `evOk` for its key (plus the `Set` of that
     field's root slot); root slot `j` is only ever set with the key of field `j`. -/
 theorem execSerial_serial (fuel : Nat) : ∀ (fields : List Field) (n i : Nat) (sched : List Nat) (S : Store),
-    ∃ l, (execSerial fuel fields n i sched S).2.2.log = S.log ++ l ∧ SerialLog (rootKeys fields) S.outstanding l ∧
+    ∃ l, (execSerial fuel fields n i sched S).2.2.log = S.log ++ l ∧ SerialLog (rootKeys fields) (pendingOf S) l ∧
       RootWrites i (rootKeys fields) l := by
   intro fields
   induction fields with
@@ -476,7 +487,7 @@ theorem execSerial_serial (fuel : Nat) : ∀ (fields : List Field) (n i : Nat) (
       · subst hm
         obtain ⟨l', hl', hs', hr'⟩ := ih n (i + 1) sched (S.push (.write [] i key (tnameVal c)))
         refine ⟨[.write [] i key (tnameVal c)] ++ l', by simp only [execSerial]; rw [hl']; simp [Store.push], ?_, ?_⟩
-        · exact SerialLog.block key (rootKeys rest) S.outstanding S.outstanding _ _
+        · exact SerialLog.block key (rootKeys rest) (pendingOf S) (pendingOf S) _ _
             (by intro e he; simp at he; subst he; exact Or.inr ⟨i, _, rfl⟩) (fun p hp => Or.inl hp) hs'
         · intro j key' v hmem
           rcases List.mem_append.mp hmem with h | h
@@ -495,24 +506,24 @@ theorem execSerial_serial (fuel : Nat) : ∀ (fields : List Field) (n i : Nat) (
         rw [h2] at hc hcu
         have happ : AppK key S S2 := hf.1.trans hc
         obtain ⟨l1, hl1, hle1⟩ := happ.log
-        have hg0 : Good key S.outstanding S := fun p hp => Or.inl hp
-        have hg2 : Good key S.outstanding S2 := happ.good hg0
-        obtain ⟨⟨l2, hl2, hle2⟩, hg3⟩ := waitLoop_serial key S.outstanding fuel f sched S2 hcu hg2
+        have hg0 : Good key (pendingOf S) S := fun p hp => Or.inl (List.mem_map_of_mem hp)
+        have hg2 : Good key (pendingOf S) S2 := happ.good hg0
+        obtain ⟨⟨l2, hl2, hle2⟩, hg3⟩ := waitLoop_serial key (pendingOf S) fuel f sched S2 hcu hg2
         rw [execSerial_cons fuel key nn mode rerr c rest n i sched S S1 S2 f0 f hm h1 h2]
         rcases hwl : waitLoop fuel f sched S2 with ⟨w, sched', S3⟩
         rw [hwl] at hl2 hg3
         simp only at hl2 hg3
-        have hblk : ∀ e ∈ l1 ++ l2, evOk key S.outstanding e := by
+        have hblk : ∀ e ∈ l1 ++ l2, evOk key (pendingOf S) e := by
           intro e he
           rcases List.mem_append.mp he with h | h
           · exact evOk_of_evUnder _ _ _ (hle1 e h)
           · exact hle2 e h
         have hnoroot : ∀ j key' v, Entry.write [] j key' v ∉ l1 ++ l2 :=
-          fun j key' v hmem => not_root_of_evOk key S.outstanding j key' v (hblk _ hmem)
-        have hstop : ∃ l, S3.log = S.log ++ l ∧ SerialLog (key :: rootKeys rest) S.outstanding l ∧
+          fun j key' v hmem => not_root_of_evOk key (pendingOf S) j key' v (hblk _ hmem)
+        have hstop : ∃ l, S3.log = S.log ++ l ∧ SerialLog (key :: rootKeys rest) (pendingOf S) l ∧
             RootWrites i (key :: rootKeys rest) l := by
           refine ⟨(l1 ++ l2) ++ [], by rw [hl2, hl1]; simp, ?_, ?_⟩
-          · exact SerialLog.block key (rootKeys rest) S.outstanding [] _ _ (fun e he => Or.inl (hblk e he)) (by simp)
+          · exact SerialLog.block key (rootKeys rest) (pendingOf S) [] _ _ (fun e he => Or.inl (hblk e he)) (by simp)
               (SerialLog.stop _ _)
           · intro j key' v hmem; simp only [List.append_nil] at hmem; exact absurd hmem (hnoroot j key' v)
         cases w with
@@ -523,7 +534,7 @@ theorem execSerial_serial (fuel : Nat) : ∀ (fields : List Field) (n i : Nat) (
             simp only [serialCont]
             obtain ⟨l3, hl3, hs3, hr3⟩ := ih n (i + 1) sched' (S3.push (.write [] i key v))
             refine ⟨(l1 ++ l2 ++ [.write [] i key v]) ++ l3, by rw [hl3]; simp [Store.push, hl2, hl1], ?_, ?_⟩
-            · refine SerialLog.block key (rootKeys rest) S.outstanding S3.outstanding _ _ ?_ hg3 hs3
+            · refine SerialLog.block key (rootKeys rest) (pendingOf S) (pendingOf S3) _ _ ?_ (good_pending hg3) hs3
               intro e he
               rcases List.mem_append.mp he with h | h
               · exact Or.inl (hblk e h)
